@@ -258,6 +258,14 @@ func suiteMarshal(r *Rng, n int, thorough bool, o *Out) {
 	for c := 0; c < n; c++ {
 		tname := []string{"t", "articles", "a_b", "é"}[r.IntN(4)]
 		typ := genTyp(r, genTypeOpts{name: tname, maxAttrs: 5, maxRels: 3, targets: []string{"t", "u"}})
+		if r.chance(1, 3) {
+			// hand-built relationships whose FromType is not the owning type's name
+			for k, rel := range typ.Rels {
+				rel.FromType = []string{"", "other"}[r.IntN(2)]
+				typ.Rels[k] = rel
+			}
+			o.stat("rels.foreign-fromtype")
+		}
 		res, _ := genMarshalRes(r, typ, o)
 		var meta map[string]any
 		if r.chance(1, 4) {
